@@ -344,7 +344,28 @@ def build(spec, made=None):
         return build_estimator(spec[1], spec[2] if len(spec) > 2 else 0, fitted=spec[3] if len(spec) > 3 else True)
     if tag == "property":
         return property(lambda self: 1)
+    if tag == "estjob":
+        return build_estjob(spec[1])
     raise ValueError(f"unknown spec tag {tag}")
+
+
+def build_estjob(job):
+    """the estimator of one job of the C07 sweep, built exactly as harness/impl_estimators.py:one_job builds it (same instance
+    generator, parameter draw, composition, data and fit fallbacks): the value whose abstraction the codec model is evaluated on"""
+    import impl_estimators as IE
+    from sklearn.base import clone
+    data_kind = job.get("data", "dense")
+    if job.get("comp"):
+        est, _kind, dk = IE.build_composition(job["comp"], job["seed"])
+        data_kind = dk if data_kind == "dense" else data_kind
+    else:
+        est = IE.base_instance(job["name"])
+        params = IE.draw_params(est, job.get("draw", 0), job["seed"])
+        if params:
+            est = clone(est).set_params(**params)
+    if job.get("fitted", True):
+        IE.try_fit(est, est.__sklearn_tags__(), data_kind, job["seed"])
+    return est
 
 
 def build_estimator(name, seed=0, fitted=True):
